@@ -561,6 +561,39 @@ DYADIC_DEN = 16
 DYADIC_MAX = 4096
 
 
+_SK = [0]
+
+
+def _ground(hyps, cj):
+    """hyps + [not cj] with a universally quantified goal conjunct skolemised (fresh constants for its variables) and every
+    single-variable integer-quantified hypothesis additionally instantiated at those constants: the applications of the
+    recursive spec functions then occur as ground terms, which is what the explicit unfolding of their definitions works on.
+    Every added formula is an instance of a hypothesis; the skolemised negation is equisatisfiable with the negated goal."""
+    if not (z3.is_quantifier(cj) and cj.is_forall()):
+        return list(hyps) + [z3.Not(cj)]
+    consts = []
+    for i in range(cj.num_vars()):
+        _SK[0] += 1
+        consts.append(z3.Const(f"%sk!{_SK[0]}", cj.var_sort(i)))
+    body = z3.substitute_vars(cj.body(), *reversed(consts))
+    out = list(hyps)
+    ints = [c for c in consts if c.sort() == z3.IntSort()]
+
+    def inst(h):
+        if z3.is_and(h):
+            for ch in h.children():
+                inst(ch)
+        elif z3.is_quantifier(h) and h.is_forall() and h.num_vars() == 1 and h.var_sort(0) == z3.IntSort():
+            for c in ints:
+                out.append(z3.substitute_vars(h.body(), c))
+    for h in hyps:
+        inst(h)
+    return out + [z3.Not(body)]
+
+
+MBQI_FIRST = [False]      # set per task from the contract (`mbqi_first = True` on the holder)
+
+
 def _goal_conjuncts(g):
     if z3.is_and(g):
         out = []
@@ -575,6 +608,22 @@ def solve(hyps, goal, timeout_ms=20000, dyadic_syms=None, seed=0, allow_split=Tr
     (twins: half, whole goal: one, conjunct-wise fallback: one, shared between the conjuncts)"""
     t0 = time.time()
     from . import induct
+    if MBQI_FIRST[0] and not (induct.SPEC and induct.mentions_spec(list(hyps) + [goal])):
+        # contracts whose obligations are quantified over all bins with neighbour facts (B[i-1] vs B[i]): z3's E-matching runs
+        # into matching loops on those, model-based instantiation alone decides them in milliseconds -- try that first
+        ok = True
+        for cj in _goal_conjuncts(goal):
+            s = z3.Solver()
+            s.set("timeout", max(3000, timeout_ms // 4))
+            s.set("random_seed", seed)
+            s.set("smt.ematching", False)
+            s.add(*hyps)
+            s.add(z3.Not(cj))
+            if s.check() != z3.unsat:
+                ok = False
+                break
+        if ok:
+            return "proved", None, time.time() - t0, "mbqi"
     if induct.SPEC and induct.mentions_spec(list(hyps) + [goal]):
         # recursive spec functions: first with uninterpreted twins and explicit instances of the defining equations
         # (stable, milliseconds), one query per conjunct of the goal; z3's own unfolding of the definitions below is the
@@ -582,15 +631,25 @@ def solve(hyps, goal, timeout_ms=20000, dyadic_syms=None, seed=0, allow_split=Tr
         all_proved = True
         cjs = _goal_conjuncts(goal)
         for cj in cjs:
-            terms, axioms = induct.with_unfoldings(list(hyps) + [z3.Not(cj)])
+            terms, axioms = induct.with_unfoldings(_ground(hyps, cj) if MBQI_FIRST[0] else list(hyps) + [z3.Not(cj)])
             s = z3.Solver()
             s.set("timeout", max(5000, timeout_ms // 2))      # per conjunct; the first conjunct that fails ends this attempt
             s.set("random_seed", seed)
             s.add(*terms)
             s.add(*axioms)
             if s.check() != z3.unsat:
-                all_proved = False
-                break
+                ok = False
+                if MBQI_FIRST[0]:
+                    s = z3.Solver()
+                    s.set("timeout", max(5000, timeout_ms // 2))
+                    s.set("random_seed", seed)
+                    s.set("smt.ematching", False)
+                    s.add(*terms)
+                    s.add(*axioms)
+                    ok = s.check() == z3.unsat
+                if not ok:
+                    all_proved = False
+                    break
         if all_proved:
             return "proved", None, time.time() - t0, ""
     s = z3.Solver()
@@ -914,6 +973,7 @@ def _failed(res):
 def verify(cname, cfg, timeout_ms=20000, seed=0, repo_src=None, samples=0):
     """Verify contract `cname` under configuration `cfg`.  Returns Result (JSON-able)."""
     c = REGISTRY[cname]
+    MBQI_FIRST[0] = bool(c.holder.__dict__.get("mbqi_first", False))
     res = Result()
     I = Interp(repo_src)
     try:
@@ -941,7 +1001,7 @@ def verify(cname, cfg, timeout_ms=20000, seed=0, repo_src=None, samples=0):
         except Untranslatable as u:
             res.executed |= I.executed
             res.untranslatable.append({"config": cid, "path": "".join("T" if d else "F" for d in I.ctx.trace), "what": str(u),
-                                       "stack": list(I.stack)})
+                                       "stack": list(I.stack), "trace": traceback.format_exc()[-900:]})
             work.extend(I.ctx.pending)
             I.stack.clear()
             I.call_depth = 0
